@@ -178,9 +178,15 @@ def main(argv=None):
             if prop not in a["props"]:
                 other_failures.append(dict(obligation=oid, message=a["message"], props=a["props"]))
                 fdeps = ur["g"].fns.get(a.get("fn") or "", {}).get("deps", [])
-                if prop in fdeps and a["cls"] == "refuted":
-                    undecided.append(dict(obligation=oid, message="dependency of %s refuted (%s): %s is undecided by this check; "
-                                          "the owning property reports it" % (prop, a["message"], prop)))
+                _kf0 = registry.load_findings()
+                known_other = any(registry.match_finding(_kf0, q, oid) for q in (a.get("props") or []))
+                if a["cls"] == "refuted" and not known_other:
+                    # modular verification: every caller was checked against this function's CONTRACT.  A contract clause of the unit that does
+                    # not hold (other than a recorded known finding) means proofs that used it prove nothing - whichever property the clause is
+                    # filed under.  The property is then undecided by the verifier; the witness search on the real code decides.
+                    undecided.append(dict(obligation=oid, message="%s refuted (%s): proofs of %s that rely on this contract are void; %s is undecided by "
+                                          "the verifier, the owning propert%s (%s) report%s the clause" % ("dependency of %s" % prop if prop in fdeps else "another clause of the unit", a["message"], prop, prop,
+                                                                                                   "y" if len(a.get("props") or []) == 1 else "ies", ",".join(a.get("props") or []), "s" if len(a.get("props") or []) == 1 else "")))
                 continue
             if a["cls"] == "undecided":
                 undecided.append(dict(obligation=oid, message=a["message"]))
